@@ -445,6 +445,14 @@ func (x *Exec) applyContract(fr *Frame, st *State, ct *Contract, key string, sig
 		post.bind["result"] = results[0]
 		post.bindT["result"] = rs.At(0).Type()
 	}
+	// ghost variables of the callee that its postconditions mention are existential witnesses for the
+	// caller: the callee proved the clauses for the final value of its ghost variable, the caller may
+	// assume them for some value (a fresh constant).
+	for _, gv := range ct.GhostVars {
+		if _, bound := post.bind[gv.Name]; !bound {
+			post.bind[gv.Name] = &Prim{T: x.freshConst(st, "ghostout."+gv.Name, ghostSort(gv.Sort))}
+		}
+	}
 	for _, cl := range ct.Ensures {
 		st.assume(post.boolExpr(cl.Expr))
 	}
